@@ -191,6 +191,7 @@ where
                             continue;
                         }
                     }
+                    rep.count("cases_run");
                     cur.1.store(t0.elapsed().as_millis() as u64, Ordering::SeqCst);
                     cur.0.store(i + 1, Ordering::SeqCst);
                     let mut rng = Rng::derive(seed, &label, i, 0);
@@ -293,6 +294,11 @@ pub fn finish(ctx: &Ctx, rep: Report, rule: &str, min_distinct: u64, extra: Valu
         }
     }
     let distinct = rep.distinct.len() as u64;
+    // a run cut short by its wall-clock budget (loaded machine) is judged against the share of the
+    // planned cases it actually ran; the floor of 2 distinct non-trivial cases always applies
+    let ran = rep.counters.get("cases_run").copied().unwrap_or(0);
+    let cut = rep.counters.get("cases_not_run_deadline").copied().unwrap_or(0);
+    let min_distinct = if cut > 0 && ran + cut > 0 { ((min_distinct as f64) * (ran as f64) / ((ran + cut) as f64)).floor() as u64 } else { min_distinct };
     let too_little = distinct < min_distinct.max(2);
     let res = json!({
         "property_id": ctx.prop,
